@@ -1,4 +1,4 @@
-(* Finding F_C12_1 (D13, FIXED by repo commit 445c8f6): before the fix CheckPremiumAmount only bounded
+(* Finding F_C12_1 (D13, FIXED by repo commit 0078b77): before the fix CheckPremiumAmount only bounded
    the premium from above.  With the old check, a swap-out responder's hugely negative premium makes
    GetClaimAmount()*1000 wrap to a payable amount above (amount+limit)*1000, and the taker's invoice
    check (equality in uint64) accepts it.  Confirmed on the real code before the fix
